@@ -65,6 +65,9 @@ def expected_open(content, magic):
         return {NI}, "not-initialised"
     if mf:
         return {MF}, "malformed"
+    if len(content) < 72:
+        # "succeeds only if": a reader that also refuses a file too short to hold the record is within the statement
+        return {"OPENED", NI, MF}, "valid-header-short-file"
     if size > (1 << 20):
         return {"OPENED", "ERR Syscall * mmap SHM segment"}, "huge-declared-size"
     return {"OPENED"}, "valid"
